@@ -304,6 +304,18 @@ def run(ctx):
                        "arguments lists none")
             else:
                 r.ok("CommandHelp: ARGUMENTS section guarded by has_arguments() incl. inherited")
+    # the inherited options of a command page come from the command's own format chain (its base format), so that the options of
+    # every ancestor command are listed, not only the application's
+    inh = [c for c in q.calls(ch) if isinstance(c.func, ast.Attribute) and c.func.attr == "_render_global_options"]
+    for c in inh:
+        src = c.args[-1] if c.args else None
+        locs = {t.id: n.value for n in walk_no_nested(ch.node) if isinstance(n, ast.Assign) for t in n.targets if isinstance(t, ast.Name)}
+        expr = locs.get(src.id, src) if isinstance(src, ast.Name) else src
+        if expr is not None and any(isinstance(x, ast.Attribute) and x.attr == "base_format" for x in ast.walk(expr)):
+            r.ok("CommandHelp: inherited options listed from the format's base chain")
+        else:
+            r.fail(ch, c, norm(c)[:70], "the inherited-options section of a command page is fed from `%s`, not from the command format's base format: options declared by a parent "
+                   "command disappear from the pages of its sub-commands" % (norm(expr) if expr is not None else "?"))
     ah = ctx.func("ApplicationHelp._render_help")
     if any(isinstance(c.func, ast.Attribute) and c.func.attr == "get_options" and not c.args for c in q.calls(ah)) and \
             any(isinstance(c.func, ast.Attribute) and c.func.attr == "_render_commands" for c in q.calls(ah)):
@@ -449,6 +461,63 @@ def run(ctx):
     render_readonly_rule(ctx, r, mod_pred=lambda m: m.startswith("clikit.ui.help"))
     if r.n == 0:
         r.fail(ab, ab.node, "no help component", "no help component with a render() found")
+    # ---------------------------------------------------------------- R9
+    r = ctx.rule("C13-R9", "OWNER", "'no rendered line is wider than the terminal': every component a help page is built from either wraps what it writes (textwrap), writes "
+                 "constants only, or hands its text to a component that does - none writes configuration text (name, version, descriptions) to the I/O directly", reference=4)
+    comp_base = ctx.cls("clikit.ui.component.Component")
+    used = set()
+    for f in scope:
+        for c in q.calls(f):
+            if isinstance(c.func, ast.Name):
+                k = p.resolve_class_expr(f.module, c.func, f)
+                if isinstance(k, ClassInfo) and comp_base in k.mro and k.module.name.startswith("clikit.ui.components"):
+                    used.add(k)
+    for k in sorted(used, key=lambda x: x.qualname):
+        m = p.lookup_method(k, "render")
+        if m is None:
+            continue
+        wraps = any(isinstance(c.func, ast.Attribute) and isinstance(c.func.value, ast.Name) and c.func.value.id == "textwrap" for c in q.calls(m))
+        writes = [c for c in q.calls(m) if isinstance(c.func, ast.Attribute) and c.func.attr in ("write", "write_line", "error", "error_line") and isinstance(c.func.value, ast.Name) and c.func.value.id in m.params]
+        raw = [c for c in writes if not all(isinstance(a, ast.Constant) for a in c.args)]
+        if wraps or not raw:
+            r.ok("%s.render: %s" % (k.name, "wraps its text" if wraps else ("writes constants only" if writes else "delegates to other components")))
+        else:
+            r.fail(m, raw[0], "%s.render writes %s unwrapped" % (k.name, norm(raw[0].args[0])[:50] if raw[0].args else "text"), "%s.render writes text that is not a constant straight to the I/O without wrapping it: "
+                   "a long display name / version gives a line wider than the terminal on the application help" % k.name)
+
+    # ---------------------------------------------------------------- R10
+    r = ctx.rule("C13-R10", "NULL", "'rendering succeeds' for every declared default: a value of unknown element type (a parameter declared Any - the default of an option or argument) "
+                 "is never handed to str.join, which raises TypeError for a list of numbers or booleans", reference=1)
+    n10 = 0
+    for f in scope:
+        env = ctx.typer.env(f)
+        for c in q.calls(f):
+            if isinstance(c.func, ast.Attribute) and c.func.attr == "join" and isinstance(c.func.value, ast.Constant) and c.args and isinstance(c.args[0], ast.Name) and c.args[0].id in f.params:
+                # declared type of the parameter (type comment / annotation): Any, or none at all
+                declared = None
+                tc = getattr(f.node, "type_comment", None)
+                names_ = [a.arg for a in f.node.args.args if a.arg not in ("self", "cls")]
+                if tc:
+                    try:
+                        ft = ast.parse(tc, mode="func_type")
+                        if len(ft.argtypes) == len(names_) and c.args[0].id in names_:
+                            declared = norm(ft.argtypes[names_.index(c.args[0].id)])
+                    except SyntaxError:
+                        pass
+                for a in f.node.args.args:
+                    if a.arg == c.args[0].id and a.annotation is not None:
+                        declared = norm(a.annotation)
+                unknown = declared is None or declared in ("Any", "object") or declared.startswith(("List[Any", "Union", "Optional[Any"))
+                if unknown:
+                    n10 += 1
+                    r.fail(f, c, norm(c), "%s joins the elements of `%s`, whose element type is not known to be str (declared Any): a multi-valued default such as [1, 2] makes the help page raise TypeError" % (f.short, c.args[0].id))
+    fv = [f for f in scope if f.name == "_format_value"]
+    for f in fv:
+        n10 += 1
+        if not any(fd.key.startswith("C13-R10|" + f.qualname) for fd in r.findings):
+            r.ok("%s: values are serialised as a whole (%s)" % (f.short, ", ".join(sorted({norm(c.func) for c in q.calls(f)}))[:60]))
+    if n10 == 0:
+        r.vacuous_ok = True
     ctx.borrow("c17", "C17-R3", "C13-R8", "'help <path>' shows the page of <path>: the help resolver removes exactly the leading help token (position 0, put back on every exit) and no "
                "other occurrence - a sub-command that is itself called 'help' stays in the path")
     return ctx.results
